@@ -299,8 +299,19 @@ type exchange struct {
 	errPacks map[string]string // key -> error text of an error pack
 }
 
+// packError returns the error text of an error response ("" for an ordinary one). A pack is an
+// error response when its option carries the error bit (read from the raw option value) or when it
+// carries an operation of type ERROR - the server's refusal is that operation; a response that
+// carries one without announcing it in the option is still a refusal.
 func packError(p *model.PushPullPack) string {
-	if p.GetPushPullPackOption().HasErrorBit() {
+	const errorBit = 0x20
+	hasBit := p.GetPushPullPackOption().HasErrorBit() || (p.GetOption()&errorBit) != 0
+	for _, op := range p.Operations {
+		if op.OpType == model.TypeOfOperation_ERROR {
+			return string(op.Body)
+		}
+	}
+	if hasBit {
 		if len(p.Operations) > 0 {
 			return string(p.Operations[0].Body)
 		}
